@@ -129,6 +129,14 @@ class PointTier(textgrid_tier.TextgridTier):
 
     def deleteEntry(self, entry: Point) -> None:
         """Removes an entry from the entries"""
+        # Entries compare equal within a tolerance.  Prefer an exact match so
+        # that a different, nearly identical entry is never removed by mistake
+        if isinstance(entry, Point):
+            for i, existingEntry in enumerate(self._entries):
+                if tuple(existingEntry) == tuple(entry):
+                    self._entries.pop(i)
+                    return
+
         self._entries.pop(self._entries.index(entry))
 
     def dejitter(
